@@ -719,6 +719,29 @@ func runC08(c *Ctx) {
 			}
 		}
 	}
+	// every blocking wait on the wake-up channel - not just the last select found - has the deadline as an
+	// alternative: a reader parked on the token alone is not released by a deadline set (or passing) afterwards
+	for _, cm := range commsOfU(r.Read) {
+		if cm.Dir != types.RecvOnly || chanRole(cm.Chan) != notifyRole {
+			continue
+		}
+		if cm.Sel == nil {
+			o.Fail(cm.Instr.Pos(), "Read blocks on the wake-up channel alone (a receive outside a select): neither a read deadline that passes nor one set while the reader is parked releases it")
+			continue
+		}
+		if cm.Sel == waitSel || !cm.Sel.Blocking {
+			continue
+		}
+		alt := false
+		for _, st := range cm.Sel.States {
+			if st.Dir == types.RecvOnly && chanRole(st.Chan) == doneRole {
+				alt = true
+			}
+		}
+		if !alt {
+			o.Fail(cm.Sel.Pos(), "a blocking wait on the wake-up channel has no case for the read deadline")
+		}
+	}
 	if waitSel != nil {
 		hasDone := false
 		for i, st := range waitSel.States {
